@@ -4502,6 +4502,14 @@ XPath::predicates(
         // update endPredicatePos.
         if (theLength > 0)
         {
+            // The previous predicate may have removed nodes from the
+            // list, so a position cached while it was evaluated is no
+            // longer valid.  Establishing the list as the context node
+            // list again discards it.
+            const XPathExecutionContext::ContextNodeListPushAndPop  thePushAndPop(
+                                        executionContext,
+                                        subQueryResults);
+
             const OpCodeMapPositionType predOpPos = opPos + 2;
 
             // OK, this is a huge hack/optimization.  If the predicate is
